@@ -3,8 +3,18 @@ package c05
 
 import (
 	"fmt"
+	"net/http"
+	"net/http/httptest"
+	"runtime"
+	"strconv"
+	"strings"
+	"sync"
+	"sync/atomic"
 	"testing"
 	"time"
+
+	"github.com/vulcand/oxy/v2/cbreaker"
+	"github.com/vulcand/oxy/v2/internal/holsterv4/clock"
 
 	"github.com/vulcand/oxy/v2/verifharness/cbh"
 	"github.com/vulcand/oxy/v2/verifharness/vstat"
@@ -180,5 +190,139 @@ func TestC05_Shield(t *testing.T) {
 			cl = append(cl, "arrival-inside-fallback-interval")
 		}
 		vstat.Case(fmt.Sprintf("%v|%v|%v|%s|%v|%v", F, R, P, expr, phase, d.Log), nt, cl, map[string]any{"fallback": F.String(), "recovery": R.String(), "check": P.String(), "condition": expr, "steps": d.Log})
+	})
+}
+
+// ---- real-goroutine stress ----------------------------------------------------
+
+type hookLogger struct {
+	seq   *atomic.Int64
+	mu    sync.Mutex
+	trips []tripRec
+	rnd   atomic.Uint64
+}
+
+type tripRec struct {
+	seq   int64
+	until time.Time
+}
+
+func (l *hookLogger) perturb() {
+	// a cheap deterministic-ish jitter: widens windows wherever the breaker logs outside its lock
+	x := l.rnd.Add(0x9e3779b97f4a7c15)
+	if x>>60 == 0 {
+		time.Sleep(time.Duration(x>>50&0x3ff) * time.Microsecond / 4)
+	} else if x>>59&1 == 0 {
+		runtime.Gosched()
+	}
+}
+
+func (l *hookLogger) Debug(format string, args ...interface{}) {
+	if strings.Contains(format, "setting state to") && len(args) >= 3 {
+		if st, ok := args[1].(fmt.Stringer); ok && st.String() == "tripped" {
+			if until, ok := args[2].(time.Time); ok {
+				l.mu.Lock()
+				l.trips = append(l.trips, tripRec{l.seq.Add(1), until})
+				l.mu.Unlock()
+			}
+		}
+		return
+	}
+	l.perturb()
+}
+func (l *hookLogger) Info(string, ...interface{})  { l.perturb() }
+func (l *hookLogger) Warn(string, ...interface{})  { l.perturb() }
+func (l *hookLogger) Error(string, ...interface{}) { l.perturb() }
+
+// TestC05_Stress: unserialised arrivals, completions and clock advances on real
+// goroutines. Trip instants and their deadlines are taken from the breaker's own
+// state-change log line (emitted inside its lock); any request that started after a
+// trip was decided, returned before that trip's deadline and still reached the
+// protected handler violates the shield.
+func TestC05_Stress(t *testing.T) {
+	rapid.Check(t, func(t *rapid.T) {
+		F := time.Duration(rapid.SampledFrom([]int{200, 500, 1000}).Draw(t, "fallbackMs")) * time.Millisecond
+		R := time.Duration(rapid.SampledFrom([]int{100, 300, 1000}).Draw(t, "recoveryMs")) * time.Millisecond
+		workers := rapid.IntRange(3, 10).Draw(t, "workers")
+		perWorker := rapid.IntRange(50, 300).Draw(t, "perWorker")
+		failEvery := rapid.IntRange(1, 3).Draw(t, "failEvery")
+		stepMs := rapid.SampledFrom([]int64{7, 23, 51, 101}).Draw(t, "clockStepMs")
+		clock.Freeze(cbh.Epoch)
+		defer clock.Unfreeze()
+		var seq atomic.Int64
+		lg := &hookLogger{seq: &seq}
+		handler := http.HandlerFunc(func(w http.ResponseWriter, r *http.Request) {
+			w.Header().Set("X-Handler", "1")
+			st, _ := strconv.Atoi(r.Header.Get("X-Want"))
+			w.WriteHeader(st)
+		})
+		cb, err := cbreaker.New(handler, "NetworkErrorRatio() > 0.5", cbreaker.FallbackDuration(F), cbreaker.RecoveryDuration(R),
+			cbreaker.CheckPeriod(time.Millisecond), cbreaker.Logger(lg))
+		if err != nil {
+			t.Fatalf("%v", err)
+		}
+		type obs struct {
+			start  int64
+			hi     time.Time
+			passed bool
+		}
+		var mu sync.Mutex
+		var all []obs
+		var wg sync.WaitGroup
+		stop := make(chan struct{})
+		clockDone := make(chan struct{})
+		go func() { // the clock
+			defer close(clockDone)
+			for {
+				select {
+				case <-stop:
+					return
+				default:
+					clock.Advance(time.Duration(stepMs)*time.Millisecond + time.Microsecond)
+					time.Sleep(20 * time.Microsecond)
+				}
+			}
+		}()
+		for w := 0; w < workers; w++ {
+			wg.Add(1)
+			go func(w int) {
+				defer wg.Done()
+				var local []obs
+				for i := 0; i < perWorker; i++ {
+					req := httptest.NewRequest("GET", "http://x/", nil)
+					want := 200
+					if (i+w)%failEvery == 0 {
+						want = 502
+					}
+					req.Header.Set("X-Want", strconv.Itoa(want))
+					rec := httptest.NewRecorder()
+					s := seq.Add(1)
+					cb.ServeHTTP(rec, req)
+					local = append(local, obs{start: s, hi: clock.Now(), passed: rec.Header().Get("X-Handler") == "1"})
+				}
+				mu.Lock()
+				all = append(all, local...)
+				mu.Unlock()
+			}(w)
+		}
+		wg.Wait()
+		close(stop)
+		<-clockDone
+		lg.mu.Lock()
+		trips := append([]tripRec(nil), lg.trips...)
+		lg.mu.Unlock()
+		shielded := 0
+		for _, o := range all {
+			for _, tr := range trips {
+				if o.start > tr.seq && o.hi.Before(tr.until) {
+					shielded++
+					if o.passed {
+						t.Fatalf("a request that started after the breaker had tripped (fallback until %v) and returned at %v, before that deadline, reached the protected handler (%d workers, fallback %v, recovery %v, %d trips)", tr.until, o.hi, workers, F, R, len(trips))
+					}
+					break
+				}
+			}
+		}
+		vstat.Case(fmt.Sprintf("stress|%v|%v|%d|%d|%d|%d|%d", F, R, workers, perWorker, failEvery, stepMs, len(trips)), len(trips) > 0 && shielded > 0, []string{"real-goroutine-stress"}, map[string]any{"fallback": F.String(), "recovery": R.String(), "workers": workers, "trips": len(trips), "requests_inside_a_shield": shielded})
 	})
 }
